@@ -61,12 +61,18 @@ theorem equiv_iff_emit_eq (a b : List Mod) : Equiv a b ↔ emit a = emit b := by
     exact .trans (ops_equiv_source a) (h ▸ .symm (ops_equiv_source b))
 
 /-- **C25 (captures threaded, controls handed back)**: for every list of controls (any
-    arities) and captured variables, the values wired into the indirect call are, position by
-    position, what the modified function's type expects (control arrays with their arities,
-    then the captured variables, non-copyable first); the outputs are stored back into the
-    places they came from; and the reordering of captured variables is a stable partition. -/
+    arities) and captured variables as the checker records them (`capture`, which stores the
+    in-out flag on each variable): (1) the values wired into the indirect call are, position by
+    position, what the modified function's type expects — this is about the control arrays (the
+    captured halves of both sides are the same expression, audit F4); (2) the outputs the compiler
+    stores back, which it selects by the stored *flag*, are exactly the outputs the signature
+    declares, which it selects by the *type* — three code sites (`_set_inout_if_non_copyable`,
+    `check_modified_block_signature`, `compile_modified_block`) that must agree, and do because the
+    flag is set from copyability (setting it from linearity instead breaks (2), see
+    `handBack_needs_flag_from_copyability`); (3) the reordering is a stable partition. -/
 theorem captures_threaded (cs : List (Nat × Nat)) (vs : List Var) :
-    callArgs cs vs = fnInputs cs vs ∧ handBack cs vs = fnOutputs cs vs ∧
+    callArgs cs (capture vs) = fnInputs cs (capture vs) ∧
+      handBack cs (capture vs) = fnOutputs cs (capture vs) ∧
       (order vs).Perm vs ∧
       (order vs).filter (fun v => !v.copyable) = vs.filter (fun v => !v.copyable) ∧
       (order vs).filter (·.copyable) = vs.filter (·.copyable) := by
@@ -77,9 +83,22 @@ theorem captures_threaded (cs : List (Nat × Nat)) (vs : List Var) :
     induction cs with
     | nil => intro base; rfl
     | cons c cs ih => intro base; simp [List.foldl_cons, ih]
+  have hflag : ∀ l : List Var, (∀ v, v ∈ l → v.inout = !v.copyable) →
+      l.filter (·.inout) = l.filter (fun v => !v.copyable) := by
+    intro l h
+    apply List.filter_congr
+    intro v hv; rw [h v hv]
+  have hcap : ∀ v, v ∈ order (capture vs) → v.inout = !v.copyable := by
+    intro v hv
+    have : v ∈ capture vs := by
+      simp only [order, List.mem_append, List.mem_filter] at hv
+      rcases hv with h | h <;> exact h.1
+    simp only [capture, List.mem_map] at this
+    rcases this with ⟨w, _, rfl⟩
+    rfl
   refine ⟨?_, ?_, ?_, ?_, ?_⟩
   · simp [callArgs, fnInputs, key]
-  · simp [handBack, fnOutputs, key]
+  · simp [handBack, fnOutputs, key, hflag _ hcap]
   · unfold order
     have := List.filter_append_perm (fun v : Var => !v.copyable) vs
     refine List.Perm.trans ?_ this
@@ -90,12 +109,18 @@ theorem captures_threaded (cs : List (Nat × Nat)) (vs : List Var) :
   · simp [order, List.filter_append, List.filter_filter]
   · simp [order, List.filter_append, List.filter_filter]
 
+/-- the agreement in `captures_threaded` (2) is not automatic: with the flag taken from another
+    predicate (here: never set, as for a droppable non-copyable array under the seeded change
+    C25/m3) the compiler hands back fewer values than the signature declares -/
+theorem handBack_needs_flag_from_copyability :
+    handBack [] [⟨0, false, false⟩] ≠ fnOutputs [] [⟨0, false, false⟩] := by decide
+
 /-- **D17 (the defect, on the pre-fix wiring)**: passing the control arrays in source order
     does not match the function type as soon as two controls differ in arity
     (`with control(a), control(b, c):`). -/
 theorem d17_old_order_mismatch :
-    callArgsOld [(0, 1), (1, 2)] [⟨0, false⟩] ≠ fnInputs [(0, 1), (1, 2)] [⟨0, false⟩] ∧
-      callArgs [(0, 1), (1, 2)] [⟨0, false⟩] = fnInputs [(0, 1), (1, 2)] [⟨0, false⟩] := by
+    callArgsOld [(0, 1), (1, 2)] [⟨0, false, true⟩] ≠ fnInputs [(0, 1), (1, 2)] [⟨0, false, true⟩] ∧
+      callArgs [(0, 1), (1, 2)] [⟨0, false, true⟩] = fnInputs [(0, 1), (1, 2)] [⟨0, false, true⟩] := by
   decide
 
 /-! ### Non-vacuity -/
